@@ -156,6 +156,11 @@ def shard_config(arg):
     dist, parent = bfs(n, name, trans)
     lines = table_lines(n, name)
     tag = f"{n}/{name}"
+    from gen import named as _named
+    named_by_orbit = {}
+    for j, (lab, g0, w, gens_n, circ_n) in enumerate(_named.named_subjects(n)):
+        if fw.h64("c05n", seed, n, name, lab) % 3 == 0 or "hsh" in lab or lab.endswith("+hs") or lab.endswith("+sh"):
+            named_by_orbit.setdefault(tab[g0], []).append((lab, gens_n))
     for k in class_ids:
         case = {"n": n, "connectivity": name, "class_id": k}
         if k >= len(lines):
@@ -178,6 +183,9 @@ def shard_config(arg):
             rng = fw.rng_for("c05m", seed, n, name, k, i)
             g, _ = members.member(n, orbit, rng)
             subjects.append((f"member{i}", g))
+        # named textbook states of this class in uniform frames (graph state of a named graph + the same Clifford on every qubit)
+        for lab, g_named in named_by_orbit.get(orbit, [])[: (2 if k_members <= 1 else 8)]:
+            subjects.append((f"named:{lab}", g_named))
         # the same class presented literally in graph form, for a graph of the orbit that need not be edge-minimal
         grng = fw.rng_for("c05g", seed, n, name, k)
         subjects.append(("graph-form", lc.graph_state_gens(n, members.random_lc_walk(n, orbit, grng))))
